@@ -1,3 +1,5 @@
+//go:build go1.23
+
 package gjkr
 
 // C12 - protocol messages are only accepted from the member index the sender
